@@ -535,6 +535,8 @@ def _audit(event, args):
     if event not in _AUDIT_EVENTS:
         return
     root = os.environ.get('ZTR_AUDIT_ROOT')
+    if not root:
+        return
     try:
         if event == 'open':
             path, mode, flags = args
@@ -556,6 +558,18 @@ def _audit(event, args):
         pass
 
 
+_audit_on = False
+
+
+def enable_audit():
+    """Install the audit hook (once per process; it cannot be removed, it
+    is silent unless $ZTR_AUDIT_ROOT is set)."""
+    global _audit_on
+    if not _audit_on:
+        _audit_on = True
+        sys.addaudithook(_audit)
+
+
 # ----------------------------------------------------------------- installation
 
 _installed = False
@@ -572,7 +586,7 @@ def install():
             for fn in fns:
                 fn(sys.modules[name])
     if os.environ.get('ZTR_AUDIT') == '1':
-        sys.addaudithook(_audit)
+        enable_audit()
     try:
         import faulthandler
         import signal
